@@ -531,3 +531,8 @@ fn is_retryable_error(err: &RepeError) -> bool {
         _ => false,
     }
 }
+
+#[cfg(kani)]
+mod verif_kani {
+    include!(concat!(env!("REPE_VERIF_KANI"), "/async_fleet.rs"));
+}
